@@ -131,7 +131,18 @@ def gc_point():
     gc.disable()
     _gc_runs[0] += 1
     if _gc_runs[0] % 25 == 0:
-        gc.collect()
+        # the coroutines and tasks of "processes" that were crashed mid-request are garbage by construction: what their
+        # finalizers have to say ("never awaited", "exception ignored in coroutine") is about the dead simulation only
+        import sys
+        import warnings
+        hook = sys.unraisablehook
+        sys.unraisablehook = lambda unraisable: None
+        try:
+            with warnings.catch_warnings():
+                warnings.simplefilter("ignore")
+                gc.collect()
+        finally:
+            sys.unraisablehook = hook
 
 
 def per_run(sim, tz="UTC0"):
